@@ -216,6 +216,9 @@ Plan gen_tmr(Rng &r, bool thorough, bool preemptive) {
     int len = (int)r.range(3, thorough ? 60 : 30); int handles = 0;
     bool lag = !preemptive && r.chance(1, 4); if (!preemptive) p.cfg["lag"] = lag;
     std::vector<int> wts = preemptive ? std::vector<int>{30, 20, 25, 20, 0} : lag ? std::vector<int>{30, 22, 30, 12, 6} : std::vector<int>{35, 20, 35, 0, 10};
+    if (r.chance(1, 6)) {   // several actions falling due on one tick, the first one's callback deleting the second (a later one of the same event, with more behind it)
+        int k = (int)r.range(3, 5); int64_t st = r.range(1, 3); for (int i = 0; i < k; i++) { p.ops.push_back(Op("create", {st, r.chance(1, 2) ? 0 : r.range(1, 4), i == 0 ? 2 : 0, i == 0 ? (int64_t)(handles + 1 + (int)r.below(2)) : 0})); handles++; }
+        if (r.chance(1, 2)) p.ops.push_back(Op("tick", {st})); if (preemptive && r.chance(1, 2)) p.ops.push_back(Op("process")); }
     for (int i = 0; i < len; i++) {
         Op o; int k = r.weighted(wts);
         if (k == 0) { int64_t st = r.pick(TVALS), cy = r.chance(1, 2) ? 0 : r.pick(TVALS); if (r.chance(1, 10)) st = 0;
